@@ -118,3 +118,19 @@ PROPS["C16"] = dict(
                  "_setup_sim_options (report/hydraulic step normalisation) is a stub in the run_sim contract"],
     assumptions=["maxiter >= 1, bt_maxiter >= 1, max_trials >= 0, rule_timestep > 0, hydraulic_timestep >= 1"],
 )
+
+PROPS["C09"] = dict(
+    level="proof",
+    explanation="Python side proved from the real source: the builders' isolated branches (no mass-balance / PDD / leak row for an isolated junction, "
+                "row 'flow = 0' for an isolated link, normal row otherwise), zeroing in store_results_in_network / save_results, "
+                "_update_internal_graph (csr entry of a node pair is 1 iff some link of the pair is not closed; parallel links), "
+                "_get_isolated_junctions_and_links (flags exactly the junctions whose indicator stayed 1 and their links, clears previous flags, "
+                "tells the model updater) and update_model_for_isolated_junctions_and_links (rows rebuilt for exactly the elements whose isolation "
+                "changed, hence reconnecting restores normal rows). The scipy CSR construction in _initialize_internal_graph and the C++ "
+                "check_for_isolated_junctions are a bounded stand-in: every small network of the stated scope is simulated and each reported step is "
+                "compared with a reference breadth-first search.",
+    trusted_base=[AML_TRUST, "C++ network_isolation.cpp and scipy CSR layout: bounded end-to-end stand-in only (C09.end_to_end)", RT_TRUST],
+    not_decided=["check_for_isolated_junctions (C++) and _initialize_internal_graph for networks beyond the bounded scope"],
+    assumptions=[],
+    rule="bounded: networks enumerated exhaustively up to the stated size; distinct = distinct (link subset, closed labelling, toggle) triples",
+)
